@@ -1,0 +1,158 @@
+//go:build verif
+
+// Machine-checked contracts for this package (comment-only; compiled only with -tags verif,
+// and even then contributes no code).  Read by /verif/govc; see /verif/DESIGN.md.
+
+package markbits
+
+//@ spec macro mbInv(mc *MarkBitsManager) bool = mc.numBitsAllocated >= 0 && mc.numFreeBits >= 0
+//@      && mc.numBitsAllocated + mc.numFreeBits == int(popcount32(mc.mask))
+
+//@ -- bit s of mark <-> bit rank(mask,s) of number, on mask bits; nothing outside the mask
+//@ spec func mbEncodes(mask uint32, number uint32, mark uint32) bool = mark & mask == mark
+//@      && forall s uint in 0..32 :: bit32(mask, s) ==> (bit32(mark, s) <==> bit32(number, uint(rank32(mask, s))))
+
+//@ -- mbBlock(mask, lo, n): the mask bits whose rank (number of lower mask bits) lies in [lo, lo+n)
+//@ spec func mbIn(mask uint32, lo int, n int, s uint) bool = bit32(mask, s) && lo <= int(rank32(mask, s)) && int(rank32(mask, s)) < lo + n
+//@ spec func mbBit(mask uint32, lo int, n int, s uint) uint32 = mbIn(mask, lo, n, s) ? uint32(1) << s : uint32(0)
+//@ spec func mbBlock(mask uint32, lo int, n int) uint32 = mbBit(mask, lo, n, 0) | mbBit(mask, lo, n, 1) | mbBit(mask, lo, n, 2) | mbBit(mask, lo, n, 3) | mbBit(mask, lo, n, 4) | mbBit(mask, lo, n, 5) | mbBit(mask, lo, n, 6) | mbBit(mask, lo, n, 7) | mbBit(mask, lo, n, 8) | mbBit(mask, lo, n, 9) | mbBit(mask, lo, n, 10) | mbBit(mask, lo, n, 11) | mbBit(mask, lo, n, 12) | mbBit(mask, lo, n, 13) | mbBit(mask, lo, n, 14) | mbBit(mask, lo, n, 15) | mbBit(mask, lo, n, 16) | mbBit(mask, lo, n, 17) | mbBit(mask, lo, n, 18) | mbBit(mask, lo, n, 19) | mbBit(mask, lo, n, 20) | mbBit(mask, lo, n, 21) | mbBit(mask, lo, n, 22) | mbBit(mask, lo, n, 23) | mbBit(mask, lo, n, 24) | mbBit(mask, lo, n, 25) | mbBit(mask, lo, n, 26) | mbBit(mask, lo, n, 27) | mbBit(mask, lo, n, 28) | mbBit(mask, lo, n, 29) | mbBit(mask, lo, n, 30) | mbBit(mask, lo, n, 31)
+
+//@ func NewMarkBitsManager
+//@   property C35
+//@   option opaque rank32, popcount32
+//@   uses rank32_zero(markMask), rank32_step(markMask), rank32_full(markMask), rank32_le(markMask), rank32_mono(markMask)
+//@   ensures res != nil && fresh(res)
+//@   ensures res.mask == markMask && res.numBitsAllocated == 0 && res.numFreeBits == int(popcount32(markMask))
+//@   ensures mbInv(res)
+//@   assigns nothing
+//@   loop 1 invariant shift < 32 && numBitsFound == int(rank32(markMask, shift))
+//@   loop 1 split shift in 0..31
+
+//@ func (*MarkBitsManager).GetMask
+//@   property C35
+//@   requires mc != nil
+//@   ensures res == mc.mask
+//@   assigns nothing
+
+//@ func (*MarkBitsManager).nthMark
+//@   property C35
+//@   option opaque rank32, popcount32
+//@   uses rank32_zero(mc.mask), rank32_step(mc.mask), rank32_full(mc.mask), rank32_le(mc.mask), rank32_mono(mc.mask)
+//@   requires mc != nil
+//@   ensures err == nil <==> (0 <= n && n < int(popcount32(mc.mask)))
+//@   ensures err == nil ==> exists s uint in 0..32 :: res0 == uint32(1) << s && bit32(mc.mask, s) && int(rank32(mc.mask, s)) == n
+//@   ensures err != nil ==> res0 == 0
+//@   assigns nothing
+//@   loop 1 invariant shift < 32 && numBitsFound == int(rank32(mc.mask, shift)) && (n < 0 || numBitsFound <= n)
+//@   loop 1 split shift in 0..31
+//@   option split-post 1, 2
+
+//@ -- Allocation: the n-th call returns the single mask bit of rank n-1; it fails exactly when no bit is free.
+//@ func (*MarkBitsManager).NextSingleBitMark
+//@   property C35
+//@   requires mc != nil && mbInv(mc)
+//@   option opaque rank32, popcount32, mbBlock
+//@   uses markbits_nth_is_block(mc.mask, mc.numBitsAllocated)
+//@   ensures mbInv(mc) && mc.mask == old(mc.mask)
+//@   ensures err == nil <==> old(mc.numFreeBits) > 0
+//@   ensures err == nil ==> mc.numBitsAllocated == old(mc.numBitsAllocated) + 1 && mc.numFreeBits == old(mc.numFreeBits) - 1
+//@   ensures err == nil ==> res0 == mbBlock(mc.mask, old(mc.numBitsAllocated), 1)
+//@   ensures err != nil ==> res0 == 0 && mc.numBitsAllocated == old(mc.numBitsAllocated) && mc.numFreeBits == old(mc.numFreeBits)
+//@   assigns mc.numBitsAllocated, mc.numFreeBits
+
+//@ func (*MarkBitsManager).AvailableMarkBitCount
+//@   property C35
+//@   requires mc != nil
+//@   ensures res == mc.numFreeBits
+//@   assigns nothing
+
+//@ -- the block is exactly the mask bits whose rank lies in [old allocated, old allocated + count)
+//@ func (*MarkBitsManager).NextBlockBitsMark
+//@   property C35
+//@   requires mc != nil && mbInv(mc) && size >= 0
+//@   option opaque rank32, popcount32, mbBlock
+//@   uses popcount32_le32(mc.mask), markbits_block_empty(mc.mask, mc.numBitsAllocated)
+//@   loop 1 uses markbits_block_extend(mc.mask, old(mc.numBitsAllocated), allocated)
+//@   ensures mbInv(mc) && mc.mask == old(mc.mask)
+//@   ensures 0 <= res1 && res1 <= size && mc.numBitsAllocated == old(mc.numBitsAllocated) + res1
+//@   ensures res1 < size ==> mc.numFreeBits == 0
+//@   ensures res0 == mbBlock(mc.mask, old(mc.numBitsAllocated), res1)
+//@   assigns mc.numBitsAllocated, mc.numFreeBits
+//@   loop 1 invariant 0 <= allocated && allocated < size && mbInv(mc) && mc.mask == old(mc.mask)
+//@   loop 1 invariant mc.numBitsAllocated == old(mc.numBitsAllocated) + allocated
+//@   loop 1 invariant mark == mbBlock(mc.mask, old(mc.numBitsAllocated), allocated)
+
+//@ func (*MarkBitsManager).CurrentFreeNumberOfMark
+//@   property C35
+//@   requires mc != nil
+//@   ensures mc.numFreeBits <= 0 ==> res == 0
+//@   ensures 0 < mc.numFreeBits && mc.numFreeBits < 63 ==> res == int(uint64(1) << uint64(mc.numFreeBits)) && res > 0
+//@   assigns nothing
+
+//@ func (*MarkBitsManager).MapNumberToMark
+//@   property C35
+//@   option opaque rank32, popcount32
+//@   uses rank32_zero(mc.mask), rank32_step(mc.mask), rank32_full(mc.mask), rank32_le(mc.mask), rank32_mono(mc.mask)
+//@   requires mc != nil
+//@   ensures err == nil <==> uint32(n) & lowmask32(uint(popcount32(mc.mask))) == uint32(n)
+//@   ensures err == nil ==> mbEncodes(mc.mask, uint32(n), res0)
+//@   ensures err != nil ==> res0 == 0
+//@   assigns nothing
+//@   loop 1 invariant shift <= 32 && numBitsFound == rank32(mc.mask, shift)
+//@   loop 1 invariant number == uint32(n) &^ lowmask32(uint(numBitsFound))
+//@   loop 1 invariant mark & mc.mask & lowmask32(shift) == mark
+//@   loop 1 invariant forall s uint in 0..32 :: s < shift && bit32(mc.mask, s) ==> (bit32(mark, s) <==> bit32(uint32(n), uint(rank32(mc.mask, s))))
+//@   loop 1 split shift in 0..31
+//@   option split-post 1, 2
+
+//@ func (*MarkBitsManager).MapMarkToNumber
+//@   property C35
+//@   option opaque rank32, popcount32
+//@   uses rank32_zero(mc.mask), rank32_step(mc.mask), rank32_full(mc.mask), rank32_le(mc.mask), rank32_mono(mc.mask)
+//@   requires mc != nil
+//@   ensures err == nil <==> mark & mc.mask == mark
+//@   ensures err == nil ==> 0 <= res0 && res0 <= 0xffffffff && uint32(res0) & lowmask32(uint(popcount32(mc.mask))) == uint32(res0)
+//@   ensures err == nil ==> mbEncodes(mc.mask, uint32(res0), mark)
+//@   ensures err != nil ==> res0 == 0
+//@   assigns nothing
+//@   loop 1 invariant shift < 32 && numBitsFound == rank32(mc.mask, shift) && mark & mc.mask == mark
+//@   loop 1 invariant 0 <= number && number <= 0xffffffff && uint32(number) & lowmask32(uint(numBitsFound)) == uint32(number)
+//@   loop 1 uses add_pow2_is_or(number, numBitsFound)
+//@   loop 1 invariant forall s uint in 0..32 :: s < shift && bit32(mc.mask, s) ==> (bit32(mark, s) <==> bit32(uint32(number), uint(rank32(mc.mask, s))))
+//@   loop 1 split shift in 0..31
+//@   option split-post 2, 3
+
+//@ -- Reversibility: a number below 2^popcount(mask) and the mark that encodes it determine each other.
+//@ lemma markbits_roundtrip_bit: forall mask uint32, n uint32, k uint32, mark uint32 :: forall j uint in 0..32 ::
+//@      mbEncodes(mask, n, mark) && mbEncodes(mask, k, mark)
+//@      && n & lowmask32(uint(popcount32(mask))) == n && k & lowmask32(uint(popcount32(mask))) == k ==> (bit32(n, j) <==> bit32(k, j))
+//@   property C35
+//@ lemma markbits_roundtrip: forall mask uint32, n uint32, k uint32, mark uint32 ::
+//@      mbEncodes(mask, n, mark) && mbEncodes(mask, k, mark)
+//@      && n & lowmask32(uint(popcount32(mask))) == n && k & lowmask32(uint(popcount32(mask))) == k ==> k == n
+//@   property C35
+//@   option opaque mbEncodes, popcount32, lowmask32
+//@   uses markbits_roundtrip_bit
+//@ lemma markbits_injective: forall mask uint32, n uint32, m1 uint32, m2 uint32 ::
+//@      mbEncodes(mask, n, m1) && mbEncodes(mask, n, m2) ==> m1 == m2
+//@   property C35
+//@ -- distinct ranks give distinct single bits (one obligation per s)
+//@ lemma markbits_distinct: forall mask uint32 :: forall s uint in 0..32 :: forall t uint in 0..32 ::
+//@      bit32(mask, s) && bit32(mask, t) && rank32(mask, s) == rank32(mask, t) ==> s == t
+//@   property C35
+//@ -- the mask bit of rank n is the one-bit block at n (one obligation per s)
+//@ lemma markbits_nth_is_block: forall mask uint32, n int :: forall s uint in 0..32 ::
+//@      bit32(mask, s) && int(rank32(mask, s)) == n ==> mbBlock(mask, n, 1) == uint32(1) << s
+//@   property C35
+//@ lemma markbits_block_empty: forall mask uint32, lo int :: mbBlock(mask, lo, 0) == 0
+//@   property C35
+//@ lemma markbits_block_extend: forall mask uint32, lo int, n int :: 0 <= lo && lo <= 64 && 0 <= n && n <= 64 ==>
+//@      mbBlock(mask, lo, n + 1) == mbBlock(mask, lo, n) | mbBlock(mask, lo + n, 1)
+//@   property C35
+//@ -- Collision freedom: blocks over disjoint rank ranges share no bit, lie inside the mask, and
+//@ -- have exactly as many bits as ranks available.
+//@ lemma markbits_blocks_disjoint: forall mask uint32, a int, n int, b int, k int ::
+//@      0 <= a && 0 <= n && a + n <= b && b <= 64 && 0 <= k && k <= 64 ==> mbBlock(mask, a, n) & mbBlock(mask, b, k) == 0
+//@   property C35
+//@ lemma markbits_block_in_mask: forall mask uint32, lo int, n int :: mbBlock(mask, lo, n) & mask == mbBlock(mask, lo, n)
+//@   property C35
